@@ -46,6 +46,10 @@ def wide_builtin_programs():
         "range(3, 9)", "concat(%s, %s)" % (N, L), "dot([1, 2, 3], [4, 5, 6])", "[ugt(2, 1), ult(\"a\", \"b\"), ugte(1, 1), ulte([1], [2])]",
         "[abs(-2), floor(2.5), ceil(2.5), round(2.567, 2), trunc(-2.5), sqrt(2), sin(1), cos(1), tan(1), asin(0.5), acos(0.5), atan(1), log(2), log10(2), exp(1)]",
         "random(42)", "%s where (s => len(s) > 3)" % L, "%s via (s => s + \"!\")" % L,
+        # unit names differing only in letter case resolve differently (exact match first)
+        "convert(1, \"Mm\", \"m\")", "convert(1, \"mm\", \"m\")", "convert(1, \"mA\", \"A\")", "convert(1, \"ma\", \"A\")",
+        "convert(1, \"MA\", \"A\")", "convert(8, \"Mb\", \"MB\")", "convert(8, \"mb\", \"MB\")", "convert(1, \"KM\", \"M\")",
+        "convert(1, \"km\", \"m\")", "to_number(\"1e3\") + to_number(\"1E3\")", "[uppercase(\"mA\"), lowercase(\"MA\")]",
         "count_by(map(range(0, 40), i => to_string(i * 7 % 13)), s => s)",
         "group_by(map(range(0, 40), i => {k: to_string(i % 11), v: i}), r => r.k)",
     ]
@@ -124,6 +128,22 @@ def main(argv):
             if nondet <= 6:
                 res.violation("the same program gave different results in different processes (built-in coverage set)",
                               {"kind": "impl-law", "program": p, "observed": sorted(outs_)[:3]})
+    # unrelated earlier evaluations: every program alone in a fresh process vs all of them in ONE process
+    # (one thread), in four different orders
+    isolated = [es.rust_eval(h, [p])[0] for p in wide]
+    orders = [list(range(len(wide))), list(reversed(range(len(wide)))), rng.shuffle(list(range(len(wide)))),
+              rng.shuffle(list(range(len(wide))))]
+    interference = 0
+    for order in orders:
+        shared = es.rust_eval(h, [wide[i] for i in order])
+        for pos, i in enumerate(order):
+            if strip_names(shared[pos]) != strip_names(isolated[i]):
+                interference += 1
+                nondet += 1
+                if interference <= 3:
+                    res.violation("a program gave a different result after unrelated earlier evaluations in the same process",
+                                  {"kind": "impl-law", "program": wide[i], "alone": isolated[i], "after_others": shared[pos],
+                                   "evaluated_before_it": [wide[j] for j in order[:pos]][-6:]})
     for p in wide[:: (4 if tier == "quick" else 1)]:
         outs_ = set()
         for _ in range(3):
@@ -191,6 +211,21 @@ def main(argv):
             pairs.append((orig, var, twice, sub))
             # the do-block variant has no separate abstraction statement: pad so that the result positions line up
             pairs.append((orig, FDEFS + "0\n" + var_do.split(FDEFS, 1)[1], twice, sub))
+    # heap-allocated subexpressions among values the built-ins cannot order or tell apart by content alone:
+    # binding one to a name changes the allocation order, never the result
+    OSUBS = ["{k: 1}", "[1, {a: 2}]", "(x => x + 1)", "{k: [1, 2], j: \"s\"}", "inputs", "[\"b\", null]"]
+    OHOLES = ["sort([{k: 2}, %s])", "sort([%s, {k: 0}, [0]])", "unique([{k: 1}, %s, {k: 1}])", "reverse(sort([[1, {a: 2}], %s]))",
+              "sort_by([[2, %s], [1, %s]], p => p[0])", "sort_by([{k: 2}, %s, {k: 0}], r => 0)", "[{k: 2}, %s] == [{k: 2}, %s]",
+              "sort([(y => y), %s, (z => z)])", "includes([{k: 1}, [1, {a: 2}]], %s)", "group_by([%s, {k: 3}], r => typeof(r))",
+              "[ugt(%s, {k: 0}), ult({k: 0}, %s), %s .== %s]", "flatten([[%s], sort([{q: 1}, %s])])",
+              "do {\n  u9 = sort([{k: 5}, %s])\n  return [u9, unique([%s, u9[0]])]\n}"]
+    for sub in OSUBS:
+        for hole in OHOLES:
+            nh = hole.count("%s")
+            orig = hole % ((sub,) * nh)
+            var = "t9fresh = " + sub + "\n" + (hole % (("t9fresh",) * nh))
+            twice = "[%s, %s]\n[%s]" % (orig, orig, orig)
+            pairs.append((orig, var, twice, sub))
     flat = []
     for o, v, t, _ in pairs:
         flat += [o, v, t]
